@@ -116,8 +116,9 @@ Section Mon.
   Definition view0 : view := {| v_nodes := repeat ns0 (length p); v_ints := []; v_block := None; v_sched := 0; v_raised := false; v_error := None |}.
 End Mon.
 
-Definition holds_c02 (i : input) (o : output) : bool := c02_walk (fst i) None o.
+(* wf_b: the hypothesis of the order theorems (props/C02.v, props/C04.v), evaluated on every method *)
+Definition holds_c02 (i : input) (o : output) : bool := wf_b (fst i) && c02_walk (fst i) None o.
 Definition holds_c03 (i : input) (o : output) : bool :=
   c03_walk (fst i) (snd i) (view0 (fst i)) o && c03_wait (fst i) 0 (snd i) None o [] [].
-Definition holds_c04 (i : input) (o : output) : bool := c04_walk (fst i) (snd i) (view0 (fst i)) o.
+Definition holds_c04 (i : input) (o : output) : bool := wf_b (fst i) && c04_walk (fst i) (snd i) (view0 (fst i)) o.
 Definition holds_b := holds_c02.
